@@ -230,7 +230,7 @@ def gen_case(rng):
         n = rng.choice([256, 300, 520])       # long tables: any size-dependent path of the grouping code
     if how == 'pivot':
         nx = rng.choice([1, 1, 2])
-        x = rng.choice([['a', 'b'], ['id1', 'tk'], ['ticker', 'p2']])[:nx]
+        x = rng.choice([['a', 'b'], ['id1', 'tk'], ['ticker', 'p2'], ['data', 'columns'], ['columns', 'key']])[:nx]
         kinds = [rng.choice(['int', 'str', 'num', 'dt', 'mixed', 'numnan']) for _ in x]
         cols = {c: [kcell(rng, k) for _ in range(n)] for c, k in zip(x, kinds)}
         ykind = rng.choice(['str', 'int', 'both', 'str', 'int', 'both', 'other'])
@@ -242,7 +242,7 @@ def gen_case(rng):
         cols['z'] = [rng.choice(zpool) for _ in range(n)]
         agg = rng.choice([None, None, 'first', 'last', 'len', ['last'], ['first']])
         return {'how': 'pivot', 'cols': cols, 'x': x, 'agg': agg, 'xstr': rng.random() < 0.5, 'alias': rng.random() < 0.3}
-    names = ['a', 'b', 'c', 'd'][:rng.randint(1, 4)]
+    names = (['a', 'b', 'c', 'd'] if rng.random() > 0.1 else ['data', 'columns', 'key', 'x'])[:rng.randint(1, 4)]     # also columns called like the library's own parameters
     kinds = {c: rng.choice(['int', 'str', 'num', 'dt', 'mixed', 'mixed', 'numnan']) for c in names}
     nk = rng.randint(1, len(names))
     keys = rng.sample(names, nk)
